@@ -676,6 +676,8 @@ def render_harness(ctx, cfg):
 
 
 def harness(ctx, cfg):
+    symx.PINS.clear()
+    symx.PINS.update(cfg.get('pin') or {})
     return {'lemma': lemma_harness, 'unquoted': unquoted_harness, 'tree': tree_harness, 'render': render_harness}[cfg['kind']](ctx, cfg)
 
 
@@ -688,9 +690,18 @@ def plan(tier, seed):
         jobs.append(dict(kind='tree', cmds=1, args=2, depth=0, width=1, v2=False, corrupt=False, max_paths=30000))
         jobs.append(dict(kind='tree', cmds=2, args=1, depth=0, width=1, v2=True, corrupt=True, corrupt_budget=24, max_paths=30000))
     else:
-        jobs.append(dict(kind='tree', cmds=1, args=2, depth=2, width=2, v2=True, corrupt=False, max_paths=400000))
-        jobs.append(dict(kind='tree', cmds=2, args=2, depth=1, width=1, v2=True, corrupt=True, corrupt_budget=60, max_paths=400000))
-        jobs.append(dict(kind='tree', cmds=3, args=1, depth=0, width=1, v2=True, corrupt=True, corrupt_budget=60, max_paths=400000))
+        # the enumeration of one configuration is spread over worker processes by PINNING its first choices (one job per
+        # value of the pinned choice; together the jobs cover the configuration exhaustively)
+        for k0 in range(11):        # 8 scalar kinds + list, empty list, tuple
+            jobs.append(dict(kind='tree', cmds=1, args=2, depth=1, width=1, v2=True, corrupt=False, max_paths=400000, pin={'nargs.0': 2, 'kind.0.0': k0}))
+        jobs.append(dict(kind='tree', cmds=1, args=1, depth=2, width=1, v2=True, corrupt=False, max_paths=400000))
+        jobs.append(dict(kind='tree', cmds=1, args=1, depth=1, width=2, v2=True, corrupt=False, max_paths=400000))
+        for k0 in range(8):
+            jobs.append(dict(kind='tree', cmds=2, args=1, depth=0, width=1, v2=True, corrupt=True, corrupt_budget=40, max_paths=400000, pin={'ncmd': 1, 'nargs.0': 1, 'kind.0.0': k0}))
+        for k0 in range(8):
+            for k1 in range(8):
+                jobs.append(dict(kind='tree', cmds=3, args=1, depth=0, width=1, v2=True, corrupt=False, max_paths=400000,
+                                 pin={'ncmd': 2, 'nargs.0': 1, 'nargs.1': 1, 'kind.0.0': k0, 'kind.1.0': k1}))
     return jobs
 
 
@@ -733,7 +744,7 @@ def describe(tier):
         'bounds': {'quick': 'L1: 18 lexeme classes, lexemes <= 6 characters + 1-2 following characters, alphabet = printable ASCII, TAB, CR, LF, e-acute, one CJK character; unquoted text: 4 classes x 4 witnesses x 3 contexts; '
                             'L3: every abstract program with 1 command x <=2 arguments x 10 value kinds (numbers, strings, unquoted words, multi-piece and colon text, digit-leading text, lists / tuples of width <= 2 nested once) incl. EEMS-2 commands and trailing commas, all token values and line numbers symbolic; '
                             '2 commands x 1 argument with ~30 single-token corruptions each against the reference recogniser; LC: 128 concrete renderings (spacing, line breaks, comments, quote kind, trailing commas)',
-                   'thorough': 'lexemes <= 8 chars; nesting depth 2; 2 commands x 2 arguments and 3 commands with 60 corruptions each'},
+                   'thorough': 'lexemes <= 8 chars; 1 command x 2 arguments with lists/tuples of depth 1 (11 pinned slices), nesting depth 2 (width 1), width 2 (depth 1), 2 commands with 40 single-token corruptions per stream (8 slices), 3 commands x 1 scalar argument (64 slices)'},
         'outside': ['escape sequences other than \\\\" \\\\\\\\ \\\\n \\\\t \\\\\' inside quoted strings', 'token streams longer than the bound', 'bracketed unquoted text with colons mixed with plain elements (ambiguous in the written grammar: not asserted)',
                     'the printed form of numbers inside unquoted text is an uninterpreted function in L3 (its faithfulness is the unquoted/digit-leading lemma)'],
         'assumptions': ['A-lex: greedy = longest for the token rules (every lemma model is replayed on the real lexer: traces_validated)', 'S-parser: in L3 the lexer is a stub that delivers the generated token stream; L1 justifies it',
